@@ -1,6 +1,7 @@
 package rules
 
 import (
+	"encoding/json"
 	"fmt"
 	"go/ast"
 	"go/constant"
@@ -268,7 +269,7 @@ var auditedAborts = map[string]string{
 	"pkg/dsl.ExpressionsEqual/default of type switch on a":                            "reached only through TypeDefinitionsEqual on two same-named records; instantiations of one definition share their computed-field expression nodes, so `a == b` returns first",
 	"pkg/dsl.updateTypeRefence/abort":                                                 "MakeGenericType fails only on an arity mismatch, which resolveTypes has already rejected (the rewriter runs on validated trees)",
 	"pkg/dsl.ParseExpression/abort":                                                   "only participle/lexer errors can come out of parseExpr (rule E4)",
-	"pkg/dsl.combineOperands/default of switch on tok.Type":                           "called only for tokens whose operatorInfo entry IsBinary: As, Dot (handled above) and the five arithmetic operators",
+	"pkg/dsl.combineOperands/default of switch on tok.Type":                           "called only for tokens whose operatorInfo entry IsBinary; that each of those has a case is rule P4b",
 	"pkg/dsl.parseCall/abort":                                                         "called only after the caller peeked an OpenParen token",
 	"pkg/dsl.parseSubscript/abort":                                                    "called only after the caller peeked an OpenBracket token",
 	"pkg/dsl.(SymbolTable).GetGenericTypeDefinition/abort":                            "every definition with type parameters was registered by buildSymbolTable under its qualified name",
@@ -328,6 +329,12 @@ func ruleAbortsImpl(fileScope func(string) bool, ruleID string, min int, onlyDef
 						continue
 					} else if r, listed := auditedAborts[key]; listed {
 						found[key] = true
+						// the audit was written for a specific set of uncovered cases: a case that goes
+						// missing later is not covered by it
+						if extra := notPinned(key, missingOf(why)); len(extra) > 0 {
+							c.Bad(ruleID, key, a.call.Pos(), fmt.Sprintf("abort reachable: the audited reason (%s) was given for other uncovered cases; now also without a case: %s", r, strings.Join(extra, ", ")))
+							continue
+						}
 						c.OK(ruleID, key, a.call.Pos(), "audited: "+r+" ("+why+")")
 						continue
 					} else {
@@ -344,4 +351,48 @@ func ruleAbortsImpl(fileScope func(string) bool, ruleID string, min int, onlyDef
 			}
 		}
 	}
+}
+
+// missingOf extracts the list after "without a case: " from an exhaustiveness verdict.
+func missingOf(why string) []string {
+	i := strings.Index(why, "without a case: ")
+	if i < 0 {
+		return nil
+	}
+	var out []string
+	for _, m := range strings.Split(why[i+len("without a case: "):], ", ") {
+		if m = strings.TrimSpace(m); m != "" {
+			out = append(out, m)
+		}
+	}
+	return out
+}
+
+var pinnedMissing map[string][]string
+
+// notPinned returns the uncovered cases that refs/audited_missing.json does not list for key.
+func notPinned(key string, missing []string) []string {
+	if pinnedMissing == nil {
+		pinnedMissing = map[string][]string{}
+		var raw map[string]json.RawMessage
+		if err := loadRef("audited_missing.json", &raw); err == nil {
+			for k, v := range raw {
+				var l []string
+				if json.Unmarshal(v, &l) == nil {
+					pinnedMissing[k] = l
+				}
+			}
+		}
+	}
+	have := map[string]bool{}
+	for _, m := range pinnedMissing[key] {
+		have[m] = true
+	}
+	var extra []string
+	for _, m := range missing {
+		if !have[m] {
+			extra = append(extra, m)
+		}
+	}
+	return extra
 }
